@@ -55,8 +55,6 @@ def kinds(steps):
                     ks.add("rm-first-leader")
         if k == "join" and s["pins"]:
             k = "join-nonempty"
-        if k == "join" and s["status"] and any(x["status"].get(s["p"]) == "gone" for x in steps[:i]):
-            ks.add("rejoin-after-removal")
         if k in ("pin", "unpin") and s["at"] != "p1":
             ks.add("write-at-non-first")
         ks.add(k)
@@ -136,9 +134,9 @@ def run(ctx):
         ctx.tlc("RaftMembership.tla", write_cfg(ctx, "thorough", 4, 2, 3, 5, 2), workers=12, timeout=3000)
     ctx.exhaustive = True
     gen_cfg = write_cfg(ctx, "gen", 3, 2, 3, 4, 1, check=False)
-    scripts = scripts_from_graph(ctx, rng, gen_cfg, 6 if ctx.quick() else 80, 8)
+    scripts = scripts_from_graph(ctx, rng, gen_cfg, 16 if ctx.quick() else 120, 8)
     ctx.log("selected %d scripts covering %s" % (len(scripts), ctx.extra.get("membership_kinds_covered")))
-    run_member_driver(ctx, scripts, "C17", "c17", 6 if ctx.quick() else 8)
+    run_member_driver(ctx, scripts, "C17", "c17", 8)
 
 
 def replay(ctx, path):
